@@ -29,6 +29,12 @@ def check(run):
         crules.merge_rules(run, r3, None, ast)
         crules.group_concrete_rules(run, r3, ast)
         crules.idem_rules(run, r3, ast)
+        # slot reservation: which root is walked first must not matter - a slot taken is reserved in every base, so a root
+        # visited later cannot hand it out again
+        if "C06-slots" not in run.rules:
+            run.rule("C06-slots", "a slot taken in a class is reserved in all its bases and propagated to all covariant classes, whatever root is allocated first", floor=10)
+        crules.reserve_rules(run, "C06-slots", ast)
+        crules.alloc_rules(run, "C06-slots", ast)
     run.assumptions += ["C06 quantifies over permutations of the registration lists (2-safety): the rules are the structural reasons a position cannot leak at the "
                         "sites where candidates are compared or records merged; equality of outcomes over all permutations is not mechanised",
                         "best() folds a relation that is not transitive for unrelated positions: order-independence of the fold is NOT decided"]
